@@ -343,6 +343,7 @@ package list
 //@   trusted
 //@   modifies nothing
 //@   ensures result != nil && fresh(result)
+//@   ensures result.lastRecordId == st.lastRecordId
 // ApplyRecord works on the state it is called on (here: always the fresh copy).
 //@ func (*AclState).ApplyRecord
 //@   trusted
@@ -354,6 +355,7 @@ package list
 //@   ensures [err_keeps_state]   err != nil ==> a.aclState == old(a.aclState) && len(a.records) == old(len(a.records)) && (forall k string :: (k in a.indexes) == old(k in a.indexes))
 //@   ensures [err_keeps_builder] err != nil ==> cast(a.recordBuilder, "*aclRecordBuilder").state == old(cast(a.recordBuilder, "*aclRecordBuilder").state)
 //@   ensures [ok_appends_one]    err == nil ==> len(a.records) == old(len(a.records)) + 1 && a.aclState != nil && cast(a.recordBuilder, "*aclRecordBuilder").state == a.aclState
+//@   ensures [accepted_extends_head] err == nil ==> a.records[len(a.records) - 1].PrevId == old(a.aclState.lastRecordId) && a.aclState.lastRecordId == a.records[len(a.records) - 1].Id
 
 // ---------------------------------------------------------------------------------------------
 // C11: the hand-written partial wire decoder (keepidentity.go) never indexes out of range and
@@ -418,3 +420,51 @@ package list
 //@   assumes st.contentValidator != nil && st.keyStore != nil
 //@ func iface list.ContentValidator.ValidateReadKeyChange
 //@   modifies nothing
+
+// ---------------------------------------------------------------------------------------------
+// C03: a record is accepted only if it is authentic and extends the head.  Authenticity is decided on
+// the raw bytes, independently of how the content is decoded: verifyRaw (author signature over the
+// envelope payload + content id of the delivered bytes), the acceptor gate for every non-root record,
+// and the sequence check of ApplyRecord.
+//@ ghost c3RawSrc Slice stable
+//@ ghost c3RawDst Ptr stable
+//@ func (*github.com/anyproto/any-sync/consensus/consensusproto.RawRecord).UnmarshalVT
+//@   modifies younger arg0
+//@   sets c3RawSrc = arg1
+//@   sets c3RawDst = arg0
+//@ func (*github.com/anyproto/any-sync/consensus/consensusproto.Record).UnmarshalVT
+//@   modifies younger arg0
+//@ func (*github.com/anyproto/any-sync/commonspace/object/acl/aclrecordproto.AclRoot).UnmarshalVT
+//@   modifies younger arg0
+//@ func iface recordverifier.AcceptorVerifier.VerifyAcceptor
+//@   pure
+//@ package github.com/anyproto/any-sync/commonspace/object/acl/list
+//@ func (*aclRecordBuilder).decodeAclData
+//@   trusted
+//@   modifies nothing
+//@   ensures result1 == nil ==> result0 != nil
+
+//@ func verifyRaw
+//@   modifies nothing
+//@   requires pubKey != nil && rawRec != nil && recWithId != nil
+//@   ensures [author_signed_envelope] err == nil ==> sigOK(pubKey, bytestr(rawRec.Payload), rawRec.Signature)
+//@   ensures [id_is_content_hash]     err == nil ==> cidOK(recWithId.Payload, recWithId.Id)
+
+//@ func (*aclRecordBuilder).UnmarshallWithId
+//@   requires a != nil && rawIdRecord != nil && a.keyStorage != nil
+//@   assumes a.verifier != nil
+//@   ensures [id_is_content_hash]      err == nil ==> rec != nil && rec.Id == rawIdRecord.Id && cidOK(rawIdRecord.Payload, rawIdRecord.Id)
+//@   ensures [envelope_from_delivered_bytes] err == nil ==> c3RawSrc == rawIdRecord.Payload && c3RawDst == rawRec
+//@   ensures [author_signed_envelope]  err == nil ==> rec.Identity != nil && sigOK(rec.Identity, bytestr(rawRec.Payload), rawRec.Signature) && rec.Signature == rawRec.Signature
+//@   ensures [acceptor_for_non_root]   err == nil && rawIdRecord.Id != a.id ==> a.verifier.VerifyAcceptor(rawRec) == nil
+
+// the record extends the head it was applied to, and becomes the new head
+//@ func (*AclState).IsOneToOne
+//@   modifies nothing
+//@ func (*AclState).applyChangeData
+//@   trusted
+//@   modifies younger st
+//@ func (*AclState).ApplyRecord
+//@   requires st != nil && record != nil
+//@   ensures [extends_head]     err == nil ==> old(record.PrevId) == old(st.lastRecordId)
+//@   ensures [becomes_head]     err == nil ==> st.lastRecordId == record.Id
